@@ -121,9 +121,11 @@ Proof.
   cbn [fst]. eapply step_frame_local; [exact Hnw|exact E|]. intros Heq. apply Hne. symmetry. exact Heq.
 Qed.
 
-Lemma never_expires_nothing_expired l now : never_expires l -> nothing_expired l now.
+Lemma never_expires_nothing_expired l now :
+  never_expires l -> st_pending (l_state l) = [] -> nothing_expired l now.
 Proof.
-  intros H id fact Hl. unfold fact_expired, not_after. rewrite (H id fact Hl). reflexivity.
+  intros H Hp. split; [|exact Hp].
+  intros id fact Hl. unfold fact_expired, not_after. rewrite (H id fact Hl). reflexivity.
 Qed.
 
 Theorem noninterference_history : noninterference_history_statement.
@@ -135,12 +137,34 @@ Proof.
     destruct (sys_step sy (r_loc q) (r_ctx q) (r_env q) (r_op q)) as [sy1 r1] eqn:E. cbn [fst].
     destruct (is_walk (r_op q)) eqn:Ew.
     - eapply step_frame_walk; [exact Ew|exact E|].
-      intros l Hl. apply never_expires_nothing_expired. apply Hne; exact Hl.
+      intros l Hl. apply never_expires_nothing_expired; apply Hne; exact Hl.
     - eapply step_frame_local; [exact Ew|exact E|]. intros Heq. apply (Hh q (or_introl eq_refl)). symmetry. exact Heq. }
   rewrite IH.
   - exact Hstep.
   - intros q' Hq'. apply Hh. right; exact Hq'.
   - intros l Hl. rewrite Hstep in Hl. apply Hne; exact Hl.
+Qed.
+
+(** Without the hypothesis on the list of noted ids the statement fails: a
+    walk from "A" reads the parents of its ancestor "B", and that read runs
+    the purge "B" had pending (here of an id that is not even stored). *)
+Definition cx_pending_sys : system :=
+  let c := mkCtx "" "" in
+  let e := mkEnv 1 "f" None in
+  let la := fst (loc_set_parents (mkLoc (empty_state Indexed false) false 100) c e ["B"]) in
+  let lb := mkLoc (set_pending (empty_state Indexed false) ["x"]) false 100 in
+  sys_set (sys_set [] "A" la) "B" lb.
+
+Lemma noninterference_history_pending_counterexample :
+  let h := [mkReq "A" (mkCtx "" "") (mkEnv 2 "f" None) (LSearch (JObj []) true)] in
+  (forall q, In q h -> r_loc q <> "B") /\
+  (forall l, sys_get cx_pending_sys "B" = Some l -> never_expires l) /\
+  sys_get (sys_run cx_pending_sys h) "B" <> sys_get cx_pending_sys "B".
+Proof.
+  cbv zeta. split; [|split].
+  - intros q [<-|[]]. discriminate.
+  - intros l Hl. vm_compute in Hl. injection Hl as <-. intros id fact Hf. discriminate.
+  - vm_compute. discriminate.
 Qed.
 
 (** * A4 *)
@@ -335,11 +359,17 @@ Qed.
 
 Theorem flag_survives_reload : flag_survives_reload_statement.
 Proof.
-  intros l now l' id prop now' _ Hf. split.
+  intros l now l' id prop now' Hr Hf. split.
   - rewrite !get_prop_snd, Hf. reflexivity.
   - intros Hn.
-    assert (Hn' : nothing_expired l' now') by (unfold nothing_expired; rewrite Hf; exact Hn).
-    rewrite !rule_enabled_live by (apply nothing_expired_live; assumption).
+    assert (Hp' : st_pending (l_state l') = []).
+    { unfold loc_reload in Hr.
+      pose proof (st_load_pending (st_kind (l_state l)) (st_hooks (l_state l)) (st_store (l_state l)) now) as Hp.
+      destruct (st_load (st_kind (l_state l)) (st_hooks (l_state l)) (st_store (l_state l)) now) as [s' r].
+      injection Hr as <- _. exact Hp. }
+    assert (Hn' : nothing_expired l' now').
+    { split; [rewrite Hf; exact (proj1 Hn)|exact Hp']. }
+    rewrite !rule_enabled_noexp_pure by assumption.
     cbn [snd]. unfold rule_enabled_pure, enabled_pure, prop_val. rewrite Hf. reflexivity.
 Qed.
 
@@ -364,7 +394,7 @@ Proof.
   intros Hw Hvn Hgood Hacyc.
   assert (Hgood' : forall y, reach sy now name y -> node_ok A visit now sy y).
   { intros y Hy. destruct (Hgood y Hy) as (l & ps & r & Hg & Hn & Hps & Hv).
-    exists l, ps, r. repeat split; try assumption.
+    exists l, ps, r. split; [exact Hg|]. split; [exact Hn|]. split; [exact Hps|].
     pose proof (Hvn y l Hn) as Hf. destruct (visit y l) as [l' o]. cbn [fst snd] in *. subst. reflexivity. }
   destruct (walk_dag A visit now sy name Hw Hgood' Hacyc (anc_fuel sy) name [] [] [])
     as (new & groups & Hres & Hreach & Hin & Ht & Hnd & Hmap & Hvals).
@@ -445,6 +475,7 @@ Print Assumptions walk_touches_only_ancestors.
 Print Assumptions run_wf.
 Print Assumptions noninterference_history_local.
 Print Assumptions noninterference_history.
+Print Assumptions noninterference_history_pending_counterexample.
 Print Assumptions ancestor_walk_total.
 Print Assumptions ancestor_walk_fuel_irrelevant.
 Print Assumptions api_walks_total.
